@@ -2,7 +2,8 @@
 # Build the check environment offline: an overlay venv on top of /venv (which holds the
 # repository's own dependencies) plus the solver wheels from the local wheelhouse.
 set -e
-V=/verif/.venv
+HERE=$(cd "$(dirname "$0")/.." && pwd)
+V="$HERE/.venv"
 if [ ! -x "$V/bin/python" ] || ! "$V/bin/python" -c 'import z3' 2>/dev/null; then
   rm -rf "$V"
   /venv/bin/python -m venv "$V"
